@@ -310,6 +310,84 @@ def replay_pair(rep, pid, name, cex):
         print('NOT-REPRODUCED %s: %s' % (line, verdicts['dev'][1]))
 
 
+def route_replay(rep, pid, name, cex):
+    """replay one counterexample on the real code, by the kind of its case"""
+    if cex.get('sharing'):
+        import c13
+        c13.replay_sharing(rep, pid, name, cex)
+    elif cex['case'].get('kind') == 'pair':
+        replay_pair(rep, pid, name, cex)
+    elif cex['case'].get('kind') == 'hash2env':
+        case = cex['case']
+        line = 'hash2env %d %s %s' % (case['k'], ','.join(str(i % (1 << 40)) for i in sorted(set(i % (1 << 40) for i in case['ids']))) if len(set(i % (1 << 40) for i in case['ids'])) == case['k'] else ','.join(str(3 * i + 1) for i in range(case['k'])), case['tt'])
+        ans = driver_run([line], 'dev')[0]
+        path = save_replay(pid, dict(case, driver_line=line, driver_answer=ans, obligation=cex['obligation']))
+        if ans.startswith('ok') and 'eq=1' in ans and 'hasheq=0' in ans:
+            rep.violations.append(('hash:environment-dependent', 'the same function built in two environments compares equal but hashes differently (%s)' % line, path))
+            print('CONFIRMED ' + line + ': ' + ans)
+        else:
+            rep.inconclusive.append('%s: address-dependent hash did not show through the driver (%s)' % (name, ans[:80]))
+    elif cex['case'].get('kind') == 'symhash':
+        case = cex['case']
+        n1 = ''.join(ch for ch in case['names'][0] if ch.isalnum()) or 'a'
+        n2 = ''.join(ch for ch in case['names'][1] if ch.isalnum()) or 'b'
+        if n1 == n2:
+            n2 = n2 + 'x'
+        line = 'symhash %d %s %s' % (case['id'] % (1 << 62), n1, n2)
+        ans = driver_run([line], 'dev')[0]
+        path = save_replay(pid, dict(case, driver_line=line, driver_answer=ans, obligation=cex['obligation']))
+        if ans.startswith('ok') and 'eq=1' in ans and 'hasheq=0' in ans:
+            rep.violations.append(('symbol:hash-vs-eq', 'symbols with id %d named %s / %s compare equal but hash differently: unique-table lookups miss and equal nodes are stored twice' % (case['id'] % (1 << 62), n1, n2), path))
+            print('CONFIRMED ' + line + ': ' + ans)
+        else:
+            rep.inconclusive.append('%s: hash/eq counterexample did not reproduce (%s)' % (name, ans[:80]))
+    elif cex['case'].get('kind') in ('table', 'freeindex', 'vars'):
+        import printcore
+        printcore.replay_print(rep, pid, name, cex)
+    elif cex['case'].get('kind') in ('dotbdd', 'dotparse'):
+        import dotcore
+        dotcore.replay_dot(rep, pid, name, cex)
+    elif cex['case'].get('kind') == 'cli':
+        import maincore
+        maincore.replay_cli(rep, pid, name, cex)
+    elif cex['case'].get('kind') == 'parse':
+        import c08
+        c08.replay_parse(rep, pid, name, cex)
+    elif cex['case'].get('kind') in ('token', 'tokenids'):
+        import tokencore
+        tokencore.replay_token(rep, pid, name, cex)
+    elif cex['case'].get('kind') == 'set':
+        import c19
+        case = cex['case']
+        steps, _ = c19.set_script(case)
+        line = 'set %d %s' % (case['bits'], ' '.join(steps))
+        verd = {}
+        for profile in ('dev', 'release'):
+            ans = driver_run([line], profile)[0]
+            verd[profile] = c19.judge_set(case, ans) + (ans,)
+        case.update(obligation=cex['obligation'], unit=name, driver_line=line,
+                    replay={p: {'violates': v[0], 'what': v[1], 'driver_answer': v[2][:300]} for p, v in verd.items()})
+        path = save_replay(pid, case)
+        ok = [p for p, v in verd.items() if v[0]]
+        if ok:
+            d = verd[ok[0]][1]
+            key = 'set:%s:%s%s' % (case['op'], 'panic' if d.startswith('panic') else 'wrong', ':aliased' if case['alias'] else '')
+            rep.violations.append((key, '`%s`: %s' % (line, d), path))
+            print('CONFIRMED %s: %s' % (line, d))
+        else:
+            rep.inconclusive.append('%s: counterexample did not reproduce (%s)' % (name, verd['dev'][1]))
+            print('NOT-REPRODUCED %s: %s' % (line, verd['dev'][1]))
+    elif cex['case'].get('kind') == 'freevars':
+        import c09
+        c09.replay_freevars(rep, name, cex)
+    elif cex['case'].get('kind') == 'formula':
+        import evalcore
+        evalcore.replay_formula(rep, pid, name, cex)
+    else:
+        replay_cex(rep, pid, name, cex)
+
+
+
 def run_property(pid, units, validate_ops, selftests, bounds, assumptions, uncovered, level='model_checking', extra_jobs=()):
     """units: list of (name, spec_name, k, opts)"""
     rep = Report(pid, level)
@@ -372,77 +450,5 @@ def run_property(pid, units, validate_ops, selftests, bounds, assumptions, uncov
     rep.absorb(results)
     for name, r in sorted(results.items()):
         if r.get('cex'):
-            if r['cex'].get('sharing'):
-                import c13
-                c13.replay_sharing(rep, pid, name, r['cex'])
-            elif r['cex']['case'].get('kind') == 'pair':
-                replay_pair(rep, pid, name, r['cex'])
-            elif r['cex']['case'].get('kind') == 'hash2env':
-                case = r['cex']['case']
-                line = 'hash2env %d %s %s' % (case['k'], ','.join(str(i % (1 << 40)) for i in sorted(set(i % (1 << 40) for i in case['ids']))) if len(set(i % (1 << 40) for i in case['ids'])) == case['k'] else ','.join(str(3 * i + 1) for i in range(case['k'])), case['tt'])
-                ans = driver_run([line], 'dev')[0]
-                path = save_replay(pid, dict(case, driver_line=line, driver_answer=ans, obligation=r['cex']['obligation']))
-                if ans.startswith('ok') and 'eq=1' in ans and 'hasheq=0' in ans:
-                    rep.violations.append(('hash:environment-dependent', 'the same function built in two environments compares equal but hashes differently (%s)' % line, path))
-                    print('CONFIRMED ' + line + ': ' + ans)
-                else:
-                    rep.inconclusive.append('%s: address-dependent hash did not show through the driver (%s)' % (name, ans[:80]))
-            elif r['cex']['case'].get('kind') == 'symhash':
-                case = r['cex']['case']
-                n1 = ''.join(ch for ch in case['names'][0] if ch.isalnum()) or 'a'
-                n2 = ''.join(ch for ch in case['names'][1] if ch.isalnum()) or 'b'
-                if n1 == n2:
-                    n2 = n2 + 'x'
-                line = 'symhash %d %s %s' % (case['id'] % (1 << 62), n1, n2)
-                ans = driver_run([line], 'dev')[0]
-                path = save_replay(pid, dict(case, driver_line=line, driver_answer=ans, obligation=r['cex']['obligation']))
-                if ans.startswith('ok') and 'eq=1' in ans and 'hasheq=0' in ans:
-                    rep.violations.append(('symbol:hash-vs-eq', 'symbols with id %d named %s / %s compare equal but hash differently: unique-table lookups miss and equal nodes are stored twice' % (case['id'] % (1 << 62), n1, n2), path))
-                    print('CONFIRMED ' + line + ': ' + ans)
-                else:
-                    rep.inconclusive.append('%s: hash/eq counterexample did not reproduce (%s)' % (name, ans[:80]))
-            elif r['cex']['case'].get('kind') in ('table', 'freeindex', 'vars'):
-                import printcore
-                printcore.replay_print(rep, pid, name, r['cex'])
-            elif r['cex']['case'].get('kind') in ('dotbdd', 'dotparse'):
-                import dotcore
-                dotcore.replay_dot(rep, pid, name, r['cex'])
-            elif r['cex']['case'].get('kind') == 'cli':
-                import maincore
-                maincore.replay_cli(rep, pid, name, r['cex'])
-            elif r['cex']['case'].get('kind') == 'parse':
-                import c08
-                c08.replay_parse(rep, pid, name, r['cex'])
-            elif r['cex']['case'].get('kind') in ('token', 'tokenids'):
-                import tokencore
-                tokencore.replay_token(rep, pid, name, r['cex'])
-            elif r['cex']['case'].get('kind') == 'set':
-                import c19
-                case = r['cex']['case']
-                steps, _ = c19.set_script(case)
-                line = 'set %d %s' % (case['bits'], ' '.join(steps))
-                verd = {}
-                for profile in ('dev', 'release'):
-                    ans = driver_run([line], profile)[0]
-                    verd[profile] = c19.judge_set(case, ans) + (ans,)
-                case.update(obligation=r['cex']['obligation'], unit=name, driver_line=line,
-                            replay={p: {'violates': v[0], 'what': v[1], 'driver_answer': v[2][:300]} for p, v in verd.items()})
-                path = save_replay(pid, case)
-                ok = [p for p, v in verd.items() if v[0]]
-                if ok:
-                    d = verd[ok[0]][1]
-                    key = 'set:%s:%s%s' % (case['op'], 'panic' if d.startswith('panic') else 'wrong', ':aliased' if case['alias'] else '')
-                    rep.violations.append((key, '`%s`: %s' % (line, d), path))
-                    print('CONFIRMED %s: %s' % (line, d))
-                else:
-                    rep.inconclusive.append('%s: counterexample did not reproduce (%s)' % (name, verd['dev'][1]))
-                    print('NOT-REPRODUCED %s: %s' % (line, verd['dev'][1]))
-            elif r['cex']['case'].get('kind') == 'freevars':
-                import c09
-                c09.replay_freevars(rep, name, r['cex'])
-            elif r['cex']['case'].get('kind') == 'formula':
-                import evalcore
-                evalcore.replay_formula(rep, pid, name, r['cex'])
-            else:
-                replay_cex(rep, pid, name, r['cex'])
+            route_replay(rep, pid, name, r['cex'])
     return rep
